@@ -30,8 +30,10 @@ PROPERTY = "C16"
 RULE = (
     "case = generated function with 1-3 injected bare annotations and/or guarded reads of undefined globals x "
     "input (choosing the path) x configuration (tooled / in place / probes on a subset of names; supplies "
-    "through Overlay.tweaking or overriding probes for a subset of the declared / undefined names); plus call "
-    "sequences on one conditional supplier with subscribers that raise before / after it. "
+    "through Overlay.tweaking or overriding probes - by name or by category `name:@A` - for a subset of the "
+    "declared / undefined names, declarations also inside handlers / else / finally / with blocks); plus call "
+    "sequences on one conditional supplier with subscribers that raise before / after it, and rounds on one "
+    "long-lived Overlay instance. "
     "Non-trivial = a declared / undefined name lies on the executed path and is either not instrumented, or "
     "instrumented and not supplied, or supplied while another one is not; distinct by (source, input, config)."
 )
